@@ -353,6 +353,28 @@ func (ex *Exec) ghostAfter(fr *Frame, in *ssa.Call, pc Term, st State) State {
 	return st
 }
 
+// ghostAtSelect applies `ghostset after select name Sort: expr` updates: the ghost is set when
+// a select statement has been executed; `index` is the number of the case that was taken
+// (-1: the default case).
+func (ex *Exec) ghostAtSelect(fr *Frame, pc Term, st State, idx Term) State {
+	for _, s := range ex.siteSpecs("ghost-after") {
+		if s.Target != "select" {
+			continue
+		}
+		s.Hits++
+		se := ex.newSpecEnv(fr, pc, st, ex.rootEntry())
+		se.vars["index"] = SVal{T: idx, Ty: types.Typ[types.Int]}
+		v := se.value(se.eval(s.C.E))
+		if se.err != nil || v.Sort != Sort(s.Why) {
+			ex.vc.note(fmt.Sprintf("ghostset %s not applied: %v (sort %s)", s.C.Label, se.err, v.Sort))
+			ex.outsideSubset("ghost update " + s.C.Label + " cannot be evaluated")
+			continue
+		}
+		st = st.with("G|"+s.C.Label, ex.vc.def("ghost_"+s.C.Label, v))
+	}
+	return st
+}
+
 // ghostInit gives every declared ghost variable its initial value.
 func (ex *Exec) ghostInit(st State) State {
 	for _, s := range ex.siteSpecs("ghost-after") {
